@@ -36,7 +36,7 @@ def mk_mat(u, name="A"):
     return Mat(k, k, None, name=name), k
 
 
-@unit("C17.LU", ["C17", "C07"], [LS + "lu_solver.LUSolver.__init__", LS + "lu_solver.LUSolver.solve", LS + "linear_solver.LinearSolver.__init__"])
+@unit("C17.LU", ["C17", "C07", "C14"], [LS + "lu_solver.LUSolver.__init__", LS + "lu_solver.LUSolver.solve", LS + "linear_solver.LinearSolver.__init__"])
 def lu(u):
     A, k = mk_mat(u)
     A.fmt = ["coo", "csr", "csc"][u.path.choose_n(3, "sparse format of the matrix")]
@@ -79,7 +79,7 @@ def lu(u):
 
 
 def _iter_unit(cls_mod, cls_name, lib_name, symmetric):
-    @unit(f"C17.{cls_name}", ["C17", "C07", "C09", "C10"], [LS + f"{cls_mod}.{cls_name}.solve", LS + f"{cls_mod}.{cls_name}.__init__"], config={"max_paths": 100})
+    @unit(f"C17.{cls_name}", ["C17", "C07", "C09", "C10", "C14"], [LS + f"{cls_mod}.{cls_name}.solve", LS + f"{cls_mod}.{cls_name}.__init__"], config={"max_paths": 100})
     def solver(u):
         A, k = mk_mat(u)
         s = u.construct(LS + f"{cls_mod}.{cls_name}", A, symmetric=True if symmetric else u.path.choose("symmetric"))
